@@ -146,7 +146,9 @@ def run(prop, tier, seed, t0):
         seen.add(key)
         nviol += 1
         if nviol <= 12:
-            d = V.save_replay(prop, seed, nviol, lambda t: script_of.get(t), trace, kind, line)
+            d = V.save_replay(prop, seed, nviol, lambda t: script_of.get(t), trace, kind, line,
+                              attrs={'prog': P.get('prog', 'mdrive'), 'lifecycle': bool(P.get('lifecycle', False)),
+                                     'validators': [list(v) for v in P.get('validators', [])], 'timeout': P.get('timeout', 120)})
             out_lines.append('VIOLATION property=%s replay=%s' % (prop, d))
             log('  -> %s %s (%s line %d)' % (p, kind, os.path.basename(trace), line))
 
@@ -193,8 +195,10 @@ def replay(path):
     os.makedirs(work, exist_ok=True)
     try:
         bindir = V.build('rel')
-        P = PLANS[prop]('quick', 1, random.Random(1)) if prop in PLANS else {}
-        traces = V.run_scripts(bindir, [('replay', open(sp).read())], work, lifecycle=P.get('lifecycle', False))
+        P = {'prog': why.get('prog', 'mdrive'), 'lifecycle': why.get('lifecycle', False),
+             'validators': [tuple(v) for v in why.get('validators', [list(API)])], 'timeout': why.get('timeout', 120)}
+        traces = V.run_scripts(bindir, [('replay', open(sp).read())], work, prog=P.get('prog', 'mdrive'),
+                               lifecycle=P.get('lifecycle', False), timeout=P.get('timeout', 120))
         bad = 0
         for module, cfg, tag in P.get('validators', [API]):
             v, k, st, tr, nl = V.validate(traces, module, cfg, work, tag=tag, nshards=1)
@@ -786,12 +790,24 @@ def plan_c11(tier, seed, rng):
                 tables = [rand_table(rng, kind, npts, pal, p_default=rng.choice([0.2, 0.5, 0.9])) for _ in range(12 if tier == 'thorough' else 6)]
                 scripts.append(('r%03d' % n, c11_script(rng, sizes, kind, rule, tables)))
                 n += 1
+    # forests whose variables were reordered (levels and variables differ) with non-uniform sizes
+    import itertools
+    for kind in ['mtb_s', 'mti_s', 'evp_s', 'mtb_r']:
+        rel = KINDS[kind][0] == 'R'
+        for rep in range(3 if tier == 'thorough' else 1):
+            K = 2 if rel else rng.choice([3, 4])
+            sizes = rng.sample([2, 3, 4, 5], K) if not rel else rng.sample([2, 3], K)
+            allp = [p for p in itertools.permutations(range(1, K + 1)) if list(p) != list(range(1, K + 1))]
+            perms = rng.sample(allp, min(2, len(allp)))
+            scripts.append(('o%03d' % n, c13_script(rng, sizes, kind, rng.choice(gen.rules_of(kind)), 'SD', 'V', perms)))
+            n += 1
     return dict(
         scripts=scripts, validators=[API, STORE], tags={'C11'},
         rule='per forest kind x reduction rule: seeded functions on the smallest shape with *every* mask (each position fixed / free / unchanged), '
              'and on random shapes up to 4 variables with random masks; the recorded visit sequence (rank, value) must equal the specification\'s sequence '
              'exactly (order, multiplicity, values); CARDINALITY as long / double / mpz; node and edge counts of every result against the reachable '
-             'sub-graph of the node snapshot (store-level validator); non-trivial = at least one assignment visited',
+             'sub-graph of the node snapshot (store-level validator); the same queries after variable reorderings of forests with non-uniform variable sizes; '
+             'non-trivial = at least one assignment visited',
         exhaustive=False,
     )
 
@@ -1167,7 +1183,19 @@ def rand_forests(rng, rel, n, pol=None):
 
 
 def hist_shapes(rng, rel):
-    return gen.rand_sizes(rng, 9 if rel else 36, maxvars=(2 if rel else 3), maxsize=4)
+    """mostly small shapes; sometimes wide (one or two large variables) or tall
+    (many binary variables) ones, so that large nodes, sparse/full storage
+    decisions and deep recursions are met as well"""
+    x = rng.random()
+    if x < 0.6:
+        return gen.rand_sizes(rng, 9 if rel else 36, maxvars=(2 if rel else 3), maxsize=4)
+    if x < 0.8:
+        if rel:
+            return [rng.randint(5, 7)]
+        return rng.choice([[rng.randint(6, 12)], [rng.randint(5, 8), rng.randint(2, 8)], [2, rng.randint(9, 16)]])
+    if rel:
+        return [2, 2, 2]
+    return [2] * rng.randint(5, 6)
 
 
 @plan('C02')
@@ -1359,6 +1387,13 @@ def plan_c01(tier, seed, rng):
                 sizes = hist_shapes(rng, rel)
                 scripts.append(('k%03d' % n, c01_script(rng, sizes, kind, rule, 8 if tier == 'thorough' else 5)))
                 n += 1
+    # values that do not fit 32 bits (EV+): unique-table comparison of wide edge values
+    for kind in ['evp_s', 'evp_r']:
+        for rule in gen.rules_of(kind):
+            for rep in range(2 if tier == 'thorough' else 1):
+                sizes = [rng.choice([2, 3]), rng.choice([2, 3, 4])] if kind == 'evp_s' else [rng.choice([2, 3])]
+                scripts.append(('w%03d' % n, c01_wide_script(rng, sizes, kind, rule)))
+                n += 1
     # spec -> code: behaviours generated by TLC from the store model, with the
     # model's prediction of every edge's function and node count after each call
     gwork = os.path.join(VERIF, 'work', 'C01-gen-%s' % tier)
@@ -1388,6 +1423,52 @@ def plan_c01(tier, seed, rng):
              'same invariant; non-trivial = non-constant function',
         exhaustive=False,
     )
+
+
+WIDE_PAL = [0, 5, 7, 2147483647, 2147483648, 2147483649, 3000000000, 10000000000, 10000000001, -3000000000, 4294967296, 8589934592]
+
+
+def c01_wide_script(rng, sizes, kind, rule):
+    """EV+ functions whose values do not fit 32 bits (the trace carries them as
+    OffGrid plus an exact fingerprint): the same function along several paths"""
+    rel = KINDS[kind][0] == 'R'
+    S = Script()
+    d = S.dom(sizes)
+    f = S.forest(d, kind, rule, sto=rng.choice(STO))
+    g = S.forest(d, kind, rng.choice(gen.rules_of(kind)), sto=rng.choice(STO))
+    npts = points_of(sizes, rel)
+    n = 4
+    a = [S.new(f) for _ in range(n)]
+    b = [S.new(f) for _ in range(n)]
+    c = [S.new(f) for _ in range(n)]
+    tg = S.new(g)
+    tmp = S.new(f)
+    zero = S.new(f)
+    S.add('const %d %d 0' % (zero, f))
+    tables = [[(INF if rng.random() < 0.3 else rng.choice(WIDE_PAL)) for _ in range(npts)] for _ in range(n)]
+    tables[n - 1] = list(tables[0])
+    for rnd in range(2):
+        for i, T in enumerate(tables):
+            table_coll(S, a[i], f, kind, T, sizes)                   # one collection
+            # point by point, shuffled, joined by MINIMUM
+            pts = [(r, v) for r, v in enumerate(T) if v != INF]
+            rng.shuffle(pts)
+            S.add('const %d %d inf' % (b[i], f))
+            for (r, v) in pts:
+                S.coll(tmp, f, 'ONE', 'inf', [(v, rank_to_assignment(r, sizes, rel))])
+                S.add('bin MINIMUM %d %d %d' % (b[i], b[i], tmp))
+            # through another forest and back; plus zero
+            S.add('un COPY %d %d' % (tg, a[i]))
+            S.add('un COPY %d %d' % (c[i], tg))
+            S.add('bin PLUS %d %d %d' % (tmp, a[i], zero))
+            S.add('obs')
+        S.add('snap %d' % f)
+        if rnd == 0:
+            for e in a + b + c + [tmp]:
+                S.add('attach %d -1' % e)
+                S.add('attach %d %d' % (e, f))
+            S.add('clearall')
+    return S.text()
 
 
 def c01_script(rng, sizes, kind, rule, nfun):
@@ -1494,6 +1575,10 @@ def c13_script(rng, sizes, kind, rule, heur, swap, perms, nedges=4):
     for p in perms:
         S.add('reorder %d %s' % (f, ' '.join(map(str, p))))
         S.add('obs')
+        # counting and enumeration in the new order (levels and variables no longer coincide)
+        for e in es:
+            S.add('card %d' % e)
+            S.add('iter %d' % e)
         S.add('snap %d' % f)
         S.add('snap %d' % g)
         # the forest must still be usable: operations after the reordering
@@ -1528,7 +1613,7 @@ def plan_c13(tier, seed, rng):
                                 c13_script(rng, sizes, kind, rng.choice(rules), heur, swap, perms)))
                 n += 1
     return dict(
-        scripts=scripts, validators=[API, STORE], tags={'C13', 'HELD', 'C02'}, timeout=25, asan=True,
+        scripts=scripts, validators=[API, STORE], tags={'C13', 'HELD', 'C02', 'C11'}, timeout=25, asan=True,
         rule='per forest kind (MT boolean/integer/real sets, EV+ sets, MT boolean/integer relations) x scheduling heuristic (all eight) x swap method '
              '(relations: variable swap and level swap): several edges sharing nodes plus a warm compute table, then a sequence of target permutations '
              '(all 24 / 6 for small K in thorough); after each reordering every held edge is evaluated at every point and compared with PermuteFn of the '
@@ -1907,6 +1992,9 @@ def c18_script(rng, style, gran, nops, pattern):
 
     def size():
         x = rng.random()
+        if pattern == 'huge' and style != 'FL' and x < 0.12:
+            # a single request that is large compared with everything allocated so far
+            return rng.choice([700, 900, 1500, 3000, 6000])
         if x < 0.5:
             return rng.randint(2, min(8, maxsz))
         if x < 0.85:
@@ -1955,7 +2043,7 @@ def plan_c18(tier, seed, rng):
     n = 0
     for style in ['OG', 'AG', 'HE', 'MA', 'FL']:
         for gran in [4, 8]:
-            for pattern in ['churn', 'sawtooth', 'holes', 'random']:
+            for pattern in ['churn', 'sawtooth', 'holes', 'random', 'huge']:
                 reps = 3 if tier == 'thorough' else 1
                 for _ in range(reps):
                     scripts.append(('g%03d_%s%d_%s' % (n, style, gran, pattern),
@@ -1966,8 +2054,9 @@ def plan_c18(tier, seed, rng):
         mc=[('MemMgrMC.tla', 'MemMgrMC.cfg', {})],
         rule='model: MemMgrMC - every request / recycle sequence over an arena of 10 slots with every placement a hole manager may choose (invariants '
              'NoOverlap, InArena, Conservation); implementation: for each of the five styles (original grid, array+grid, heap, malloc, free lists) and both '
-             'slot widths (4 and 8 bytes), seeded request / recycle sequences in four patterns (steady churn, grow-and-shrink sawtooth, hole creation followed '
-             'by splitting and exact-fit requests, uniform random) with sizes from the minimum to 300 slots (free lists: to their 15-slot limit); every live '
+             'slot widths (4 and 8 bytes), seeded request / recycle sequences in five patterns (steady churn, grow-and-shrink sawtooth, hole creation followed '
+             'by splitting and exact-fit requests, uniform random, small requests mixed with single requests of 700..6000 slots that outgrow the arena) with sizes '
+             'from the minimum up (free lists: to their 15-slot limit); every live '
              'chunk carries a pattern derived from its identity that is verified before it is recycled and at checkpoints; TLC accepts a request only if the '
              'chunk is at least as large as requested, its handle non-zero, and disjoint from every live chunk of the specification\'s state, and a recycle only '
              'of a live chunk with intact contents; thorough repeats the executions under AddressSanitizer; non-trivial = request served while other chunks are live',
